@@ -646,7 +646,7 @@ class Translator:
                 if x == 'self' and c.selfname:
                     return (c.selfname, c.selfty, True)
                 if x in c.vars:
-                    return (lid(x), c.vars[x], True)
+                    return ('' if c.vars[x] == 'Options' else lid(x), c.vars[x], True)
                 if x in LOOK:
                     return ('Look' + LOOK[x], 'Look', True)
                 if x == 'None':
@@ -701,6 +701,8 @@ class Translator:
         if k == 'field':
             r = self.ex(e[1], c, pre)
             f = e[2]
+            if r[1] == 'Options':       # RegexOptions is not modelled: whatever is computed from it alone is opaque
+                return ('', 'Options', True)
             if r[1] == 'Info':
                 if f not in INFO_FIELDS:
                     bad('unknown field `%s` of Info' % f, line)
@@ -742,9 +744,25 @@ class Translator:
             if p[0] == 'Insn' and len(p) == 2:
                 return self.insn(p[1], 'struct', e[2], c, pre, line)
             owner = c.fn.owner if p == ['Self'] else p[0]
+            if p == ['RegexOptions']:
+                return ('', 'Options', True)
             if len(p) != 1 or owner not in STRUCTS:
                 bad('struct literal `%s`' % '::'.join(p), line)
             given = {f: v for f, v, _ in e[2]}
+            base = given.pop('..', None)
+            if base is not None:        # struct update `S { f: v, ..base }` = `{ base with f := v }`
+                b = self.ex(base, c, pre)
+                if b[1] != owner or not set(given) <= {f for f, _, _ in STRUCTS[owner]}:
+                    bad('struct update of `%s` from a value of type %s' % (owner, b[1]), line)
+                ups = []
+                for f, _, tag in STRUCTS[owner]:
+                    if f in given and tag is not None:
+                        r = self.ex(given[f], c, pre, want=tag)
+                        if r[1] != tag:
+                            bad('field `%s` of %s gets a value of type %s' % (f, owner, r[1]), line)
+                        ups.append('%s := %s' % (f, self.arg(r)))
+                bt = b[0] if re.fullmatch(r"[\w.«»']+", b[0]) else '(%s : %s)' % (b[0], self.lty(owner))
+                return ('{ %s with %s }' % (bt, ', '.join(ups)) if ups else b[0], owner, True)
             if set(given) != {f for f, _, _ in STRUCTS[owner]}:
                 bad('struct literal `%s` does not give every field exactly once' % owner, line)
             parts = []
@@ -756,6 +774,25 @@ class Translator:
                     bad('field `%s` of %s gets a value of type %s' % (f, owner, r[1]), line)
                 parts.append('%s := %s' % (f, self.arg(r)))
             return ('{ ' + ', '.join(parts) + ' }', owner, True)
+        if k == 'matches':      # `matches!(x, P | P)` as a boolean (patterns without bindings)
+            sc = self.ex(strip_ref(e[1]), c, pre)
+            if sc[1] == 'Expr':
+                alts = []
+                for p in e[2]:
+                    cc = c.child()
+                    lp = self.expr_pat(p, cc, [])[0]
+                    if set(cc.vars) != set(c.vars):
+                        bad('`matches!` pattern with a binding', line)
+                    if lp == '_':
+                        return ('true', 'bool', True)
+                    alts.append(lp)
+                return ('(match %s with%s | _ => false)' % (sc[0], ''.join(' | %s => true' % a for a in alts)), 'bool', True)
+            if sc[1] == 'Look':
+                alts = [LOOK[p[1][0]] for p in e[2] if p[0] == 'ppath' and len(p[1]) == 1 and p[1][0] in LOOK]
+                if len(alts) != len(e[2]):
+                    bad('`matches!` pattern on a LookAround', line)
+                return ('(' + ' || '.join('(%s == Look%s)' % (self.arg(sc), a) for a in alts) + ')', 'bool', True)
+            bad('`matches!` on a value of type %s' % (sc[1],), line)
         if k == 'str':
             bad('string literal', line)
         bad('expression `%s`' % k, line)
@@ -884,6 +921,8 @@ class Translator:
             return self.ex(recv, c, pre, want)
         r = self.ex(recv, c, pre)
         ty = r[1]
+        if ty == 'Options':
+            return ('', 'Options', True)
         if ty in ('Infos', 'VecUsize', 'VecInsn', 'String') and name == 'len' and not args:
             return ('%s.length' % self.arg(r), 'usize', True)
         if ty in ('Infos', 'VecUsize') and name == 'is_empty' and not args:
@@ -1289,6 +1328,8 @@ class Translator:
             bad('`let %s: %s` gets a value of type %s' % (x, s[3], ty), line)
         c.vars[x] = ty
         c.alias.pop(x, None)
+        if ty == 'Options':
+            return k(ind)
         if r[0] == lid(x) and pre.items:
             return pre.wrap(ind, k)
         return pre.wrap(ind, lambda i: [' ' * i + 'let %s : %s := %s' % (lid(x), self.lty(ty), r[0])] + k(i))
@@ -1710,6 +1751,7 @@ class Translator:
         for pn, pt, _ in f.params:
             ty = rust_ty(pt)
             if ty == 'Options':
+                c.vars[pn] = ty
                 continue
             c.vars[pn] = ty
             params.append('(%s : %s)' % (lid(pn), self.lty(ty)))
